@@ -23,6 +23,10 @@ Definition seq_solution (I : Seq.inst) (x : nat -> Z) (v : Z) : Prop :=
      Seq.zqf (Seq.num_variables I) (Seq.Rmat E) x = 0) /\
   Seq.zdot (Seq.num_variables I) (Seq.cvec I) x + Seq.zqf (Seq.num_variables I) (Seq.Qo I) x = v.
 
+(* the same program as a zsys (Routes.v), E the entries of the quadratic constraint matrix *)
+Definition seq_sys (I : Seq.inst) (E : list (nat * nat)) : zsys :=
+  mkZsys (Seq.num_rows I) (Seq.num_variables I) (Seq.Amat I) (Seq.bvec I) (Seq.Rmat E) (Seq.cvec I) (Seq.Qo I).
+
 (* the non-strict object on the VRPTW graph of st: same nodes, same arcs, plus the depot self-arc of
    cost 0 that the class's set_depot stores; no vehicle costs *)
 Definition seq_view (st : pstate) (I : Seq.inst) : Prop :=
